@@ -52,7 +52,7 @@ ZoomsOKB(items, zooms) ==
   /\ LevelsIncreasing(Map(LAMBDA z : z.res, zooms))
   /\ \A k \in 1..Len(zooms) : /\ ZoomLevelOKB(items, zooms[k])
                               /\ \A i \in 1..Len(zooms[k].recs) : zooms[k].recs[i][1] \in Range(ChromsOf(items))
-                              /\ \A i \in 2..Len(zooms[k].recs) : zooms[k].recs[i-1][1] <= zooms[k].recs[i][1]
+                              /\ GroupedByChrom(zooms[k].recs)
 
 (* --------------------------- mechanism --------------------------------- *)
 (* The sweep line of the bigBed writer (add_interval_to_summary / process_val_zoom): `ov` is the list
